@@ -23,9 +23,37 @@ TRACKED = ("_initial_value", "_fluents_defaults", "_initial_defaults")
 def _guard_facts(cfg, node) -> List[Tuple[str, bool, bool]]:
     """(test text, outcome that leads to node, other outcome raises)"""
     out = []
+    # a single-assignment local used as a flag in a test stands for what it was bound to (`ok = a.is_compatible(b)`)
+    binds = {}
+    for m in cfg.nodes:
+        if m.kind == "stmt" and isinstance(m.ast, ast.Assign) and len(m.ast.targets) == 1 and isinstance(m.ast.targets[0], ast.Name):
+            binds.setdefault(m.ast.targets[0].id, []).append(m.ast.value)
     for t, outcome in guards_dominating(cfg, node):
-        out.append((norm(t.ast), outcome, raising_branch(cfg, t, not outcome)))
+        txt = norm(t.ast)
+        for x in ast.walk(t.ast):
+            if isinstance(x, ast.Name) and len(binds.get(x.id, ())) == 1:
+                txt += f" [{x.id} = {norm(binds[x.id][0])}]"
+        out.append((txt, outcome, raising_branch(cfg, t, not outcome) or _all_paths_raise(cfg, t, not outcome)))
     return out
+
+
+def _all_paths_raise(cfg, test, outcome: bool) -> bool:
+    """Every path that leaves `test` by `outcome` ends in a raise (no path reaches the normal exit)."""
+    starts = [s_ for s_ in cfg.g.successors(test) if cfg.g[test][s_].get("label") is outcome or (isinstance(cfg.g[test][s_].get("label"), tuple) and outcome in cfg.g[test][s_].get("label"))]
+    if not starts:
+        return False
+    seen, todo = set(), list(starts)
+    while todo:
+        n = todo.pop()
+        if n in seen:
+            continue
+        seen.add(n)
+        if n is cfg.exit:
+            return False
+        if n.kind == "return":
+            return False
+        todo += list(cfg.g.successors(n))
+    return True
 
 
 def _has_guard(facts, needle: str, value_names: Set[str]) -> bool:
